@@ -77,6 +77,7 @@ fn dry_profile() -> ScenarioProfile {
         rf: true,
         ops: vec![Op::Remove, Op::Link, Op::SoftLink, Op::Dedupe, Op::Move],
         files: (4, 12),
+        hardlinks: 3,
     }
 }
 
